@@ -1,6 +1,7 @@
 CONSTANTS
  WalkerCapturesNext = TRUE
  EmptyBlockFlushes = TRUE
+ EmptyLooksAtChildren = TRUE
 INIT Init
 NEXT Next
 CHECK_DEADLOCK FALSE
